@@ -79,7 +79,10 @@ def gen(seed, tier="quick"):
         # i-th invocation (classifier call counts legitimately differ between entry points, so classifiers are left
         # out); every entry point must do the same work up to that point and let the same error out
         call = scn["calls"][0]
-        call["faults"] = [{"site": r.choice(["strategy", "strategy", "sleeper"]), "at": r.randrange(0, 3),
+        site = r.choice(["strategy", "strategy", "sleeper", "attempt_start"])
+        if site == "attempt_start":
+            scn["place"]["att_hooks"] = "call"       # per-call hooks exist on every entry point
+        call["faults"] = [{"site": site, "at": r.randrange(0, 3),
                            "exc": r.choice(["ValueError", "RuntimeError", "KeyError", "Custom"]), "kind": "callback_raise"}]
     if r.random() < 0.4:
         scn["cfg"]["breaker"] = {"kind": "real", "failure_threshold": r.choice([1, 2, 3]), "window_us": 60_000_000,
@@ -127,7 +130,7 @@ def result_fact(cf):
     return ("exc", o["last_exception"])
 
 
-DROP = {"SUSPEND", "YIELD", "ATT_START", "ATT_END", "CALL_BEGIN", "CALL_END", "ADVANCE", "POLL", "CLASSIFY", "RCLASSIFY"}
+DROP = {"SUSPEND", "YIELD", "ATT_START", "ATT_END", "CALL_BEGIN", "CALL_END", "ADVANCE", "POLL", "CLASSIFY", "RCLASSIFY", "BEFORE_SLEEP_END"}
 
 
 def normalise(trace, with_breaker):
